@@ -36,6 +36,13 @@ Go packages), never wiped between runs.
   extrafields `models.<Type>.extraFields` (a Go map) with 2-7 entries, `embedExtraFields`, `@goExtraField` with and
               without name, on objects and inputs, builtin / pointer / slice / named types from the standard library and
               from a hand-written package. `extra_summary` derives the input of driver_c18 `xf`.
+  shadow      hand-written model packages whose identifiers COLLIDE ACROSS SCOPES: for bound types T (structs, named string
+              scalars) the package also defines type parameters (of funcs and of generic types), parameters, named results,
+              locals, local types / consts, labels, receivers, closure parameters, type-switch variables called T or
+              Marshal<T>, plus struct fields and methods called T; 1-2 packages, bound through `models:` or `autobind:`.
+              The binder indexes a package by identifier NAME over the map TypesInfo.Defs (`h_c18 -mode find` + driver `idx`).
+  template_sets  (not projects) template sets for templates.Render: 0-4 `!.gotpl` roots x 0-4 ordinary roots, `_.gotpl`
+              includes, templates defined inside files, sub-directories, foreign files (`h_c18 -mode render` + driver `roots`).
 """
 import fnmatch
 import glob
@@ -674,6 +681,199 @@ def extra_summary(d, pkg):
             for t, e in sorted(out.items()) if e["named"] or e["embedded"]]
 
 
+# ------------------------------------------------------------------------------------------------ identifiers colliding across scopes
+# Hand-written model packages in which identifiers of NESTED scopes (and methods / struct fields, which have no scope)
+# are named like a bound type T or like Marshal<T>. The binder indexes a package by identifier name while ranging over
+# the map TypesInfo.Defs (codegen/config/binder.go indexDefs); only package-scope names are guaranteed distinct.
+SHADOW_KINDS = {
+    "typeparam_func": "func Pick{k}[{T} any](xs []{T}) ({T}, bool) {{\n\tvar z {T}\n\tif len(xs) > 0 {{\n\t\treturn xs[0], true\n\t}}\n\treturn z, false\n}}\n",
+    "typeparam_constraint": "func Conv{k}[{T} ~string](v {T}) string {{ return string(v) }}\n",
+    "typeparam_type": "type Box{k}[{T} any] struct{{ V {T} }}\n",
+    "local_var": "func local{k}() int {{\n\t{T} := {k}\n\treturn {T}\n}}\n",
+    "param": "func param{k}({T} int) int {{ return {T} + 1 }}\n",
+    "result": "func result{k}() ({T} string) {{\n\t{T} = \"x\"\n\treturn\n}}\n",
+    "local_type": "func ltype{k}() any {{\n\ttype {T} struct{{ X int }}\n\treturn {T}{{X: {k}}}\n}}\n",
+    "local_const": "func lconst{k}() int {{\n\tconst {T} = {k}\n\treturn {T}\n}}\n",
+    "field": "type Holder{k} struct{{ {T} string }}\n",
+    "method": "type Owner{k} struct{{}}\n\nfunc (Owner{k}) {T}() string {{ return \"m\" }}\n",
+    "label": "func label{k}() int {{\n\tn := 0\n{T}:\n\tfor {{\n\t\tn++\n\t\tif n > 2 {{\n\t\t\tbreak {T}\n\t\t}}\n\t}}\n\treturn n\n}}\n",
+    "receiver": "type Recv{k} struct{{ N int }}\n\nfunc ({T} Recv{k}) Get() int {{ return {T}.N }}\n",
+    "typeswitch": "func tswitch{k}(x any) int {{\n\tswitch {T} := x.(type) {{\n\tcase int:\n\t\treturn {T}\n\t}}\n\treturn 0\n}}\n",
+    "closure_param": "var Fn{k} = func({T} int) int {{ return {T} * 2 }}\n",
+    "marshal_local": "func mlocal{k}() int {{\n\tMarshal{T} := {k}\n\treturn Marshal{T}\n}}\n",
+    "marshal_param": "func mparam{k}(Marshal{T} func() string) string {{ return Marshal{T}() }}\n",
+}
+SHADOW_NESTED = [k for k in SHADOW_KINDS if k not in ("field", "method")]      # kinds that HAVE a parent scope
+SHADOW_PKGS = [("model", "model"), ("domain", "domain"), ("graph/types", "types"), ("internal/entity", "entity"), ("zed/model", "model")]
+SHADOW_SCALARS = ["Cursor", "Token", "Slug", "Stamp"]
+
+
+def shadow(rng, name, collisions=None):
+    """collisions: how many (bound name, nested identifier) pairs the project holds (None: 2-7); 1 = the lightest case"""
+    npk = 1 + rng.below(2)
+    pkgs = shuffle(rng, SHADOW_PKGS)[:npk]
+    if len({p for _, p in pkgs}) < npk:
+        pkgs = pkgs[:1]
+    tn = shuffle(rng, WORDS)
+    sc = shuffle(rng, SHADOW_SCALARS)
+    autobind = rng.below(3) == 0
+    files, models_yml, bound, scalars = {}, "", [], []
+    per_pkg = []
+    for d, pk in pkgs:
+        ts = [tn.pop() for _ in range(2 + rng.below(2))]
+        ss = [sc.pop()] if rng.below(3) else []
+        per_pkg.append((d, pk, ts, ss))
+        bound += ts
+        scalars += ss
+    want = collisions if collisions is not None else 2 + rng.below(6)
+    targets = []                                    # (package index, bound name, kind)
+    kinds = shuffle(rng, SHADOW_NESTED)
+    for i in range(want):
+        pi = rng.below(len(per_pkg))
+        cand = per_pkg[pi][2] + per_pkg[pi][3]
+        t = cand[rng.below(len(cand))]
+        k = kinds[i % len(kinds)]
+        if k == "typeparam_constraint" and t not in per_pkg[pi][3]:
+            k = "typeparam_func"
+        targets.append((pi, t, k))
+    for _ in range(rng.below(3)):                   # scope-less namesakes (struct field, method): never indexed
+        pi = rng.below(len(per_pkg))
+        targets.append((pi, per_pkg[pi][2][0], ["field", "method"][rng.below(2)]))
+    k = 0
+    for pi, (d, pk, ts, ss) in enumerate(per_pkg):
+        src = "// Package %s holds hand-written types the schema is bound to.\npackage %s\n\n" % (pk, pk)
+        decls = []
+        for s_ in ss:
+            decls.append("type %s string\n" % s_)
+        for t in ts:
+            extra = "".join("\t%s *%s\n" % (s_ + "At", s_) for s_ in ss[:1])
+            decls.append("type %s struct {\n\tID   string\n\tName string\n\tRank int\n%s}\n" % (t, extra))
+        for (qi, t, kind) in targets:
+            if qi == pi:
+                k += 1
+                decls.append(SHADOW_KINDS[kind].format(T=t, k=k))
+        src += "\n".join(shuffle(rng, decls))
+        files["%s/types_src.go" % d] = src
+        if not autobind:
+            for t in ts + ss:
+                models_yml += "  %s:\n    model: {{PKG}}/%s.%s\n" % (t, d, t)
+    gen = [tn.pop() for _ in range(1 + rng.below(2))]
+    sdl = "".join("scalar %s\n" % s_ for s_ in scalars)
+    every = bound + gen
+    fp = shuffle(rng, FIELDS)
+    for pi, (d, pk, ts, ss) in enumerate(per_pkg):
+        for t in ts:
+            body = ["id: ID!", "name: String!", "rank: Int!"] + ["%sAt: %s" % (s_[0].lower() + s_[1:], s_) for s_ in ss[:1]]
+            sdl += "type %s {\n  %s\n}\n" % (t, "\n  ".join(body))
+    for t in gen:
+        body = ["id: ID!", "%s: %s" % (fp.pop(), every[rng.below(len(every))])] + ["%s: %s" % (fp.pop(), s_) for s_ in scalars[:1]]
+        sdl += "type %s {\n  %s\n}\n" % (t, "\n  ".join(body))
+    q = []
+    for t in shuffle(rng, every):
+        arg = "(after: %s, first: Int)" % scalars[rng.below(len(scalars))] if scalars and rng.below(2) else ""
+        q.append("%s%s: %s" % (fp.pop(), arg, ["%s", "%s!", "[%s!]!"][rng.below(3)] % t))
+    sdl += "type Query {\n  %s\n}\n" % "\n  ".join(q)
+    layout = ["follow", "none"][rng.below(2)]
+    extra = ""
+    if autobind:
+        extra += "autobind:\n" + "".join("  - {{PKG}}/%s\n" % d for d, _, _, _ in shuffle(rng, per_pkg))
+    else:
+        extra += "models:\n" + models_yml
+    model_pkg = "gen" if any(pk == "model" for _, pk in pkgs) else "model"
+    files["schema.graphql"] = sdl
+    files["gqlgen.yml"] = yml(name, layout, extra, model_pkg=model_pkg)
+    return {"files": files, "meta": {"dimension": "shadow", "autobind": autobind, "bound": bound + scalars,
+                                     "collisions": [{"package": per_pkg[pi][0], "name": t, "kind": kind} for pi, t, kind in targets]}}
+
+
+# ------------------------------------------------------------------------------------------------ template sets for templates.Render
+TPL_STEMS = ["consts", "types", "a", "ab", "abc", "b", "Z", "z", "zz", "0init", "_lead", "x!y", "model-gen", "build", "accessors", "m.n", ""]
+
+
+def template_sets(rng, n):
+    """n template sets of every shape: 0-4 important (`!.gotpl`) and 0-4 ordinary root files, `_.gotpl` includes, templates
+    defined INSIDE files (`{{ define "x!.gotpl" }}` is a root too, `{{ define "helper" }}` is not), files in sub-directories and
+    files of other suffixes (both must be ignored). The first cases cover 0, 1, 2, 3 important roots."""
+    out = []
+    for i in range(n):
+        k_imp = i if i < 4 else rng.below(5)
+        k_ord = rng.below(5) if i != 0 else 3
+        stems = shuffle(rng, TPL_STEMS)
+        files = {}
+        v = 0
+
+        def body(nm):
+            nonlocal v
+            v += 1
+            return "// from %s\nvar V%d = {{ .Version | quote }}\n" % (nm, v)
+        names = []
+        for j in range(k_imp):
+            st = stems[j % len(stems)] + ("" if j < len(stems) else str(j))
+            names.append(st + "!.gotpl")
+        for j in range(k_ord):
+            st = stems[(k_imp + j) % len(stems)]
+            if st == "":
+                st = "plain"
+            names.append(st + ".gotpl")
+        for nm in names:
+            files[nm] = body(nm)
+        roots = list(names)
+        inc = ["shared_.gotpl", "helpers!_.gotpl"][:rng.below(3)]
+        for nm in inc:
+            files[nm] = '{{ define "helper%d" }}// helper{{ end }}// include %s\n' % (len(files), nm)
+        if names:
+            for j in range(rng.below(3)):           # templates defined inside a root file
+                host = names[rng.below(len(names))]
+                inner = ["inner%d!.gotpl" % j, "part%d.gotpl" % j, "frag%d" % j, "Inner%d!.gotpl" % j][rng.below(4)]
+                files[host] += '{{ define "%s" }}// defined in %s\nvar D%d_%d = 1\n{{ end }}' % (inner, host, i, j)
+                if inner.endswith(".gotpl"):
+                    roots.append(inner)
+        for j in range(rng.below(3)):               # sub-directories: not part of the set
+            files["sub%d/%s" % (j, ["deep!.gotpl", "more.gotpl"][rng.below(2)])] = "var Nested%d = 1\n" % j
+        if rng.below(2):
+            files["README.txt"] = "not a template\n"
+        if rng.below(3) == 0:
+            files["notes.gotpl.bak"] = "var Bak = 1\n"
+        out.append(("tset%d" % i, {"files": files, "templates": sorted(set(roots + inc)), "important": k_imp, "ordinary": k_ord}))
+    return out
+
+
+DEFINE_RE = re.compile(r'\{\{-?\s*define\s+"([^"]+)"')
+
+
+def template_names(files):
+    """every template NAME t.Templates() holds after ParseFS(fs, "*.gotpl") on these files: the top-level files matching the
+    glob and whatever they define"""
+    names = []
+    for rel in sorted(files):
+        if "/" in rel or not rel.endswith(".gotpl"):
+            continue
+        names.append(rel)
+        names += DEFINE_RE.findall(files[rel])
+    seen, out = set(), []
+    for n_ in names:
+        if n_ not in seen:
+            seen.add(n_)
+            out.append(n_)
+    return out
+
+
+def load_template_corpus(cdir):
+    out = []
+    if not os.path.isdir(cdir):
+        return out
+    for case in sorted(os.listdir(cdir)):
+        base = os.path.join(cdir, case)
+        if not os.path.isdir(base):
+            continue
+        files = {}
+        for r, _, fs in os.walk(base):
+            for f in fs:
+                files[os.path.relpath(os.path.join(r, f), base)] = open(os.path.join(r, f)).read()
+        out.append((case, {"files": files}))
+    return out
+
+
 # ------------------------------------------------------------------------------------------------ writing
 def write(root, name, proj, pkg_prefix):
     d = os.path.join(root, name)
@@ -692,7 +892,7 @@ def load_corpus(cdir):
         return out
     for case in sorted(os.listdir(cdir)):
         base = os.path.join(cdir, case)
-        if not os.path.isdir(base):
+        if not os.path.isdir(base) or case.startswith("_"):     # _templates: template sets, see load_template_corpus
             continue
         files = {}
         for r, _, fs in os.walk(base):
